@@ -31,7 +31,7 @@ def gen_case(rng, hermitian):
     cplx = rng.random() < 0.7
     seed = rng.randrange(1 << 30)
     fully = sorted(rng.sample(range(nb), rng.randint(1, nb))) if (nb == 1 or rng.random() < 0.5) else []
-    chain = bool(fully) and rng.random() < 0.3
+    chain = hermitian and bool(fully) and rng.random() < 0.3  # Hermitian only: in non-Hermitian mode a chain is inside the known finding
     if chain:
         # a non-transitive tolerance chain E, E+0.06, E+0.12 (atol = 0.1) inside a fully diagonalised block of 3 levels
         # (plus 0-2 further, well separated levels in the same block)
